@@ -784,6 +784,138 @@ example :
     [(exEnv [1, 0] [10], .api (.load kn)), (exEnv [1, 0] [10], .api (.load kb))]
     [(exEnv [1, 0] [10], .api (.load ke)), (exEnv [1, 0] [10], .hotReload)] rfl).1
 
+/-! ### The unrestricted load statement is false: three refutations
+
+Loaders of a tiny all-hot type table (all `Plain`): `x` returns `0`; `y` fails; `a` loads `y` and
+returns `1` whatever that gives (it absorbs the failure); `p` probes `x` with `get_cached`, and when `x`
+is absent loads it and returns `1`, else returns `2`; `q` probes `x` and returns `1` / `2`. -/
+
+def cxProg (id : String) : Prog :=
+  if id = "x" then .ret (.int 0)
+  else if id = "y" then .fail (.custom "no")
+  else if id = "a" then .load ⟨0, "y"⟩ fun _ => .ret (.int 1)
+  else if id = "p" then .getCached ⟨0, "x"⟩ fun r =>
+    match r with
+    | none => .load ⟨0, "x"⟩ fun _ => .ret (.int 1)
+    | some _ => .ret (.int 2)
+  else if id = "q" then .getCached ⟨0, "x"⟩ fun r =>
+    match r with
+    | none => .ret (.int 1)
+    | some _ => .ret (.int 2)
+  else .panic
+
+def cxEnv : Env :=
+  { read := fun _ id _ => .error ⟨true, "NotFound", id⟩
+    readDir := fun _ _ => .ok []
+    types := fun _ => { hot := true, prog := cxProg }
+    hasReloader := true }
+
+theorem cxEnv_steady : cxEnv.Steady := ⟨fun _ _ _ _ => rfl, fun _ _ _ => rfl, fun _ _ => rfl⟩
+theorem cxEnv_hot : cxEnv.Hot := ⟨rfl, fun _ => rfl⟩
+
+theorem cxEnv_plain : ∀ ty id, ((cxEnv.types ty).prog id).Plain := by
+  intro _ id
+  show (cxProg id).Plain
+  unfold cxProg
+  split
+  · exact .ret _
+  split
+  · exact .fail _
+  split
+  · exact .load _ _ (fun _ => .ret _)
+  split
+  · refine .getCached _ _ (fun r => ?_)
+    cases r
+    · exact .load _ _ (fun _ => .ret _)
+    · exact .ret _
+  split
+  · refine .getCached _ _ (fun r => ?_)
+    cases r <;> exact .ret _
+  · exact .panic
+
+/-- a registered, cached, dynamic asset whose re-evaluation is NOT a tracked hit-only run (it misses) -/
+def missAtB (env : Env) (fuel : Nat) (x : St × RSt) (k : Key) : Bool :=
+  match x.2.graph.get (.asset k), x.1.lookup k with
+  | some node, some c => node.typed && c.dyn && !reloadHit env fuel x.1 k
+  | _, _ => false
+
+theorem not_settled_of_miss {env : Env} {fuel : Nat} {x : St × RSt} {k : Key} (h : missAtB env fuel x k = true) :
+    ¬ Settled env fuel x.1 x.2.graph := by
+  unfold missAtB at h
+  cases hg : x.2.graph.get (.asset k) with
+  | none => rw [hg] at h; cases h
+  | some node =>
+    cases hc : x.1.lookup k with
+    | none => rw [hg, hc] at h; cases h
+    | some c =>
+      rw [hg, hc] at h
+      simp only [Bool.and_eq_true, Bool.not_eq_true'] at h
+      obtain ⟨⟨h1, h2⟩, h3⟩ := h
+      intro hs
+      have := (hs k node c hg h1 hc h2).hit
+      rw [h3] at this
+      cases this
+
+/-- **An absorbed failure: the load statement without `hclean` is false.** Every hypothesis of the
+unrestricted statement holds — environment without fault plan, all types hot, all loaders `Plain`,
+empty cache and reloader (settled, exact, drained) — and `load a` returns a handle. `a` loaded `y`,
+which failed, and went on: it is cached and registered with the dependency `y`, and `y` is not cached.
+Re-evaluating `a` misses `y`: it is not a tracked hit-only run, `a` is not settled. (A reload of `a`
+would load `y` behind the sort's back: F-C05d.) -/
+theorem C05_load_settles_false_absorbed :
+    ∃ (env : Env) (fuel : Nat) (s : St) (r : RSt) (key : Key),
+      env.Steady ∧ env.Hot ∧ (∀ ty id, ((env.types ty).prog id).Plain) ∧
+      s.out = [] ∧ Settled env fuel s r.graph ∧ GraphOK r.graph ∧
+      NoProbedKeyFilled s (step env fuel s (.load key)).1 r.graph ∧
+      (step env fuel s (.load key)).2 = .handle 0 (.int 1) ∧
+      ¬ CleanLoad env fuel s key ∧
+      reloadHit env fuel (loadDrain env fuel (s, r) key).1 key = false ∧
+      ¬ Settled env fuel (loadDrain env fuel (s, r) key).1 (loadDrain env fuel (s, r) key).2.graph :=
+  ⟨cxEnv, 10, {}, {}, ⟨0, "a"⟩, cxEnv_steady, cxEnv_hot, cxEnv_plain, rfl, settled_nil _ _ _, graphOK_nil,
+    noProbedKeyFilled_nil _ _, by decide, by decide, by decide,
+    not_settled_of_miss (x := loadDrain cxEnv 10 ({}, {}) ⟨0, "a"⟩) (k := ⟨0, "a"⟩) (by decide)⟩
+
+/-- **A probe of a key that gets filled: the load statement without `hclean` is false.** Same
+hypotheses; `load p` returns a handle. `p` probed `x` with `get_cached`, found nothing, loaded `x` and
+returned `1`. Now `x` is cached: re-evaluating `p` returns `2`. `p` holds `1`: stale from the start. -/
+theorem C05_load_settles_false_probe :
+    ∃ (env : Env) (fuel : Nat) (s : St) (r : RSt) (key : Key),
+      env.Steady ∧ env.Hot ∧ (∀ ty id, ((env.types ty).prog id).Plain) ∧
+      s.out = [] ∧ Settled env fuel s r.graph ∧ GraphOK r.graph ∧
+      NoProbedKeyFilled s (step env fuel s (.load key)).1 r.graph ∧
+      (step env fuel s (.load key)).2 = .handle 1 (.int 1) ∧
+      ¬ CleanLoad env fuel s key ∧
+      StaleAt env fuel (loadDrain env fuel (s, r) key) key ∧
+      reloadOut env fuel (loadDrain env fuel (s, r) key).1 key = .ok (.int 2) ∧
+      ¬ Settled env fuel (loadDrain env fuel (s, r) key).1 (loadDrain env fuel (s, r) key).2.graph :=
+  have hst : StaleAt cxEnv 10 (loadDrain cxEnv 10 ({}, {}) ⟨0, "p"⟩) ⟨0, "p"⟩ := staleAt_of_check (by decide)
+  ⟨cxEnv, 10, {}, {}, ⟨0, "p"⟩, cxEnv_steady, cxEnv_hot, cxEnv_plain, rfl, settled_nil _ _ _, graphOK_nil,
+    noProbedKeyFilled_nil _ _, by decide, by decide, hst, by decide, hst.not_settled⟩
+
+/-- **`Settled` is not preserved without `hfill`.** `q` was loaded (it probed `x`, found nothing,
+returned `1`) and registered: everything is settled (by the load theorem). Then `load x`: a clean load
+that returns a handle — and fills the key `q` probed. Re-evaluating `q` returns `2` now; `q` holds `1`.
+(In the code the dependency `q → x` is recorded, but the first load of `x` is not an event.) -/
+theorem C05_load_preserves_false_fill :
+    ∃ (env : Env) (fuel : Nat) (s : St) (r : RSt) (key : Key),
+      env.Steady ∧ env.Hot ∧ (∀ ty id, ((env.types ty).prog id).Plain) ∧
+      s.out = [] ∧ Settled env fuel s r.graph ∧ GraphOK r.graph ∧
+      CleanLoad env fuel s key ∧
+      (step env fuel s (.load key)).2 = .handle 1 (.int 0) ∧
+      ¬ NoProbedKeyFilled s (step env fuel s (.load key)).1 r.graph ∧
+      StaleAt env fuel (loadDrain env fuel (s, r) key) ⟨0, "q"⟩ ∧
+      ¬ Settled env fuel (loadDrain env fuel (s, r) key).1 (loadDrain env fuel (s, r) key).2.graph := by
+  have h0 := C05_load_settles_partial cxEnv 10 {} {} ⟨0, "q"⟩ cxEnv_steady rfl (settled_nil _ _ _) graphOK_nil
+    (by decide) (noProbedKeyFilled_nil _ _)
+  have hst : StaleAt cxEnv 10 (loadDrain cxEnv 10 (loadDrain cxEnv 10 ({}, {}) ⟨0, "q"⟩) ⟨0, "x"⟩) ⟨0, "q"⟩ :=
+    staleAt_of_check (by decide)
+  have hclean : CleanLoad cxEnv 10 (loadDrain cxEnv 10 ({}, {}) ⟨0, "q"⟩).1 ⟨0, "x"⟩ := by decide
+  refine ⟨cxEnv, 10, (loadDrain cxEnv 10 ({}, {}) ⟨0, "q"⟩).1, (loadDrain cxEnv 10 ({}, {}) ⟨0, "q"⟩).2, ⟨0, "x"⟩,
+    cxEnv_steady, cxEnv_hot, cxEnv_plain, h0.2.2, h0.1, h0.2.1, hclean, by decide, ?_, hst, hst.not_settled⟩
+  intro hfill
+  exact hst.not_settled
+    (C05_load_settles_partial cxEnv 10 _ _ ⟨0, "x"⟩ cxEnv_steady h0.2.2 h0.1 h0.2.1 hclean hfill).1
+
 /-! Non-vacuity -/
 example : GraphOK (Graph.insertAsset [] (.asset ⟨0, "a"⟩) [.file "a" "s"]) :=
   C05_insert_keeps_inverse [] graphOK_nil _ _
